@@ -34,6 +34,14 @@ CHECKS = {
    "explicit-state enumeration of all add-operation sequences on the real util.IgnoreSet against a list-scan reference model",
    "Exactly the quantifier's space: all sequences of <=3 operations over the 206-operation alphabet (quick) and all sequences of 4 single-token operations plus wider ranges at depth 2 (thorough), from the zero value, &IgnoreSet{} and nil, each followed by all 56 queries, compared with a linear-scan reference.",
    "public API only (Add, AddModuleIgnore, Contains); positions are small integers standing for token.Pos", "2/C16"),
+ "C06": ("exploration", "E4 drvmc + E1 + E2",
+   "exhaustive finite grid: fixtures x run sets x real drivers and in-process modes, want-marker oracle; reflection-generated fact value space through gob",
+   "Every cell of the grid fixture x non-empty run set (both orders) x {gogreement -json, -debug=p, -debug=s, go vet -vettool -json, checker.Analyze in 4 modes} is executed on the real executables / real analyzers and every named package's diagnostics must equal the want-markers; every generated fact value (all fields, by reflection) must survive the drivers' gob round trip byte-deterministically. A finite grid enumerated completely, hence exploration rather than model checking of a state space.",
+   "x/tools drivers, encoding/gob and the go command trusted; fixtures are fixed programs", "2/C06"),
+ "C19": ("model_checking", "E2 seqmc",
+   "exhaustive enumeration of (line length, column, content class, file layout) on the real Reporter, independent fragment-locating oracle",
+   "All line lengths 0..600 x all columns x 5 content classes x 5 file layouts x neighbour-length rotations, plus degraded inputs, are pushed through reporting.Reporter.ReportViolation with a synthetic Pass; a position-coded line lets the oracle locate the excerpt fragment and the caret cell without knowing the truncation arithmetic.",
+   "only width-1 runes are generated; columns inside a rune and cuts splitting a rune are recorded, not judged", "2/C19"),
 }
 
 NA_REASON = "check not built yet in this round (planned, see DESIGN.md section 2)"
@@ -68,8 +76,10 @@ def main():
         "engines": [
             {"name": "E1 histmc", "path": "/verif/mc/internal/e1", "serves_properties": ["C01", "C02", "C03", "C04", "C12", "C13"],
              "kind_free_text": "explicit-state search over declaration/statement histories; successor = history + one declaration, re-rendered and re-analysed by the real analyzers (checker.Analyze)"},
-            {"name": "E2 seqmc", "path": "/verif/mc/internal/checks", "serves_properties": ["C16"],
+            {"name": "E2 seqmc", "path": "/verif/mc/internal/checks", "serves_properties": ["C16", "C19", "C06"],
              "kind_free_text": "exhaustive enumeration of inputs / operation sequences through the public API against a boring reference model"},
+            {"name": "E4 drvmc", "path": "/verif/mc/internal/drv", "serves_properties": ["C06"],
+             "kind_free_text": "grid runner over the real executables (gogreement, go vet -vettool) on programs materialised in a tmpfs scratch directory; rebuilt from the working tree on every run"},
         ],
         "checks": checks,
         "notes": "All checks run the real code of /repo (rebuilt from the working tree on every invocation). known_findings.json lists recorded and fixed defects.",
